@@ -246,6 +246,14 @@ func flattenOnceObs(dir string, o flatOpts, failAt int, observe bool) (res flatR
 	}()
 	res.sw = &sw
 	res.an = analysis.New(&sw)
+	if len(raw)%2 == 0 {
+		// the analyzer handed to Flatten has already been queried (every public getter once): answers memoized before
+		// Flatten must not survive it (C10); the other half of the runs hands in an untouched analyzer
+		func() {
+			defer func() { _ = recover() }()
+			_ = queryDigest(res.an, &sw)
+		}()
+	}
 	if observe {
 		analysis.VerifSetSink(func(ph analysis.VerifPhase) {
 			snap := phaseSnap{Name: ph.Name, NewRefs: newRefsJSON(ph)}
